@@ -222,5 +222,8 @@ class HedValidator:
                     validation_issues += self.validate_units(hed_tag, hed_tag.extension[:-2])
                 elif not (allow_placeholders and '#' in hed_tag.extension):
                     validation_issues += self.validate_units(hed_tag)
+                elif hed_tag.extension.startswith("# ") and hed_tag.is_unit_class_tag():
+                    # A placeholder followed by a unit: the unit is checked with a stand-in number.
+                    validation_issues += self.validate_units(hed_tag, "1" + hed_tag.extension[1:])
 
         return validation_issues
